@@ -161,8 +161,15 @@ def run_sym(spec):
         verdict = "harness_error"
     else:
         verdict = "inconclusive"
+    inproc = None
+    if verdict == "refuted":
+        # concrete replay in this very process (tracer gone): the authoritative reproduction for code
+        # whose behaviour depends on per-process set iteration order / object addresses
+        RUN.twin = False
+        inproc = run_concrete(spec, script=RUN.witness["script"])
     return {
         "verdict": verdict,
+        "inproc_replay": inproc,
         "states": states,
         "message": text,
         "paths": RUN.paths,
